@@ -13,6 +13,7 @@ UNITS = {
     'SERHDR': dict(template='serhdr.rs', rlimit=30),
     'SESSENG': dict(template='sesseng.rs', rlimit=40),
     'CONNENG': dict(template='conneng.rs', rlimit=40),
+    'TRANSPORT': dict(template='transport.rs', rlimit=30),
 }
 
 COMMON_TRUSTED = [
@@ -74,13 +75,13 @@ PROPS = {
         level_text='BOUNDED stand-in only: Kani/CBMC explores every byte string up to the stated length for each listed type on the real serde_amqp crate with overflow checks and unwinding assertions on. Nothing here is counted as proved; recursion depth, allocation size and progress are not decided.',
         assumptions=['bounded: input length <= 3 bytes per harness (all strings)', 'stack depth, allocation proportional to input, no-loop-without-consuming are NOT decided (a CBMC run cannot bound the real process)', 'structure-aware corruptions of longer encodings are covered only by the thorough-tier compound-header harnesses']),
     'C06': dict(
-        units=['FRAMEENC', 'FRAMEDEC', 'CONNENG'], kani=[], level='proof', title='Frames on the wire',
+        units=['FRAMEENC', 'FRAMEDEC', 'CONNENG', 'TRANSPORT'], kani=[], level='proof', title='Frames on the wire',
         lemmas={'FRAMEENC': ['lemma_expected_properties', 'lemma_cut_points', 'lemma_mids_payload', 'lemma_mids_sizes', 'lemma_flatten_append', 'lemma_payloads_append']},
         assumptions=[
             'precondition fits(): the transfer performative alone (in each of its three forms) is smaller than the frame body; a larger one is outside the contract (usize underflow / no progress)',
             'enc(t) is the uninterpreted output of the derive-generated serializer; axiom |enc(t[more:=false])| <= |enc(t[more:=true])|',
-            'Transport::start_send (Pin/Sink) cutting the buffer every max_frame_length bytes is covered only by lemma_cut_points (cut points == frame boundaries); the Sink glue itself is not under contract',
-            'non-transfer performatives larger than the frame are cut into pseudo-frames by start_send: see known finding / DESIGN D9 (not decided by a contract here)',
+            'Transport::start_send is under contract in unit TRANSPORT with Pin erased and FramedWrite / FrameEncoder::encode as stand-ins; lemma_cut_points (FRAMEENC) + [C06.transport.cut-points] give cut points == frame boundaries for split transfers',
+            'a NON-transfer performative whose encoding exceeds the frame (oversize Open/Attach) is cut by start_send into max-sized pieces each sent as its own frame: [C06.transport.*] hold for it byte-wise, but the pieces are not AMQP frames (DESIGN D9; no contract decides it, nothing establishes |wire(item)| <= max for non-transfers)',
             'decoding under arbitrary read fragmentation is tokio_util LengthDelimitedCodec + FramedRead (third party), not verified']),
     'C01': dict(
         units=['FRAMEENC', 'SESSION', 'SENDSPLIT', 'LINK', 'REASM', 'SESSENG', 'CONNENG'],
